@@ -429,6 +429,15 @@ class AtomicEngine(Engine):
                              "remove_applied_before": trace["mode"] != "undo" and "remove" in shape[:applied],
                              "victim_has_remove": "remove" in shape})
         info["exc"] = type(exc).__name__
+        # did the rollback meet RemoveResource.undo (not implemented upstream)? The exception
+        # that finally surfaces may come from a later rollback step that missed the removed
+        # resource, so the whole chain is searched
+        e, refused, seen = exc, False, 0
+        while e is not None and seen < 50:
+            if isinstance(e, NotImplementedError) and "RemoveResource" in str(e):
+                refused = True
+            e, seen = (e.__context__ or e.__cause__), seen + 1
+        info["remove_undo_refused"] = refused
         after = _state(ctx)
         bad = False
         if trace["mode"] in ("undo_sel", "redo_sel"):
@@ -538,17 +547,20 @@ class AtomicEngine(Engine):
                 where=fault,
             )
 
-    def minimise(self, trace, vclass, budget=200, where=None):
+    def minimise(self, trace, vclass, budget=200, where=None, sig=None):
         t = dict(trace)
         if where is not None:
             t["faults"] = [where]
 
         fkind = where.get("kind") if where else None
+        # shrinking must stay with the same phenomenon, not drift to another one of the same class
+        keep = {k: sig[k] for k in ("remove_applied_before", "remove_undo_refused", "exc") if sig and k in sig}
 
         def fails(cand):
             o = self.execute(cand)
             return any(
                 v["class"] == vclass and (fkind is None or v["signature"].get("fault") == fkind)
+                and all(v["signature"].get(k) == x for k, x in keep.items())
                 for v in o.violations
             )
 
